@@ -147,6 +147,11 @@ class ReplayLedger(object):
         self.fixed = F(fees.get("fixed", 0.0))
         self.prop = F(fees.get("prop", 0.0))
         self.scale = abs(float(self.deposit))
+        self.slack = 0.0
+        self.flattened = 0
+
+    def tol(self):
+        return 1e-9 * self.scale + self.slack
 
     def nlv(self, books):
         v = self.deposit + self.interest - self.comm
@@ -168,6 +173,9 @@ class ReplayLedger(object):
         self.pos[sym] = self.pos.get(sym, F(0)) + q
         self.flows[sym] = self.flows.get(sym, F(0)) + q * px
         if self.pos[sym] != 0 and abs(self.pos[sym]) < F(1, 10 ** 7):
+            # documented approximation of Broker.transact: a residual below epsilon is dropped
+            self.slack += float(abs(self.pos[sym]) * px * m)
+            self.flattened += 1
             self.pos[sym] = F(0)
         self.comm += self.fixed + self.prop * abs(q * px * m)
         self.scale = max(self.scale, abs(float(q * px * m)))
